@@ -399,8 +399,10 @@ func (j *JSON) JustAttributes() Result {
 	var r Result
 	r.Errs += j.bad
 	if !j.single {
-		r.Errs++
-		r.Unspec = true // what is returned besides the error is not defined
+		r.Errs++ // what is returned besides the error is not defined
+		for _, p := range j.props {
+			r.unspecName(p.Name)
+		}
 	}
 	seen := map[string]bool{}
 	for _, p := range j.props {
